@@ -17,7 +17,7 @@ prop, outdir, n, needs = sys.argv[1], sys.argv[2], sys.argv[3], sys.argv[4]
 checks = sys.argv[5].split(",") if len(sys.argv) > 5 else [prop]
 diff = os.path.join(outdir, "change%s.diff" % n)
 demo = os.path.join(outdir, "demo%s.py" % n)
-sid = "%s-%s" % (prop, n)
+sid = sys.argv[6] if len(sys.argv) > 6 else "%s-%s" % (prop, n)   # optional explicit id (second-round seeds)
 dest = os.path.join("/verif/seeded", sid)
 os.makedirs(dest, exist_ok=True)
 wt = "/tmp/confirm_%s" % sid
